@@ -3,12 +3,13 @@ C12 — symbolic expressions over `Rat`.
 
 `SExpr` is the fragment of sympy expressions that the shipped rate-law library
 (`mxlpy/fns.py`: mass action, Michaelis–Menten, moieties, diffusion, + − × ÷) produces:
-model symbols, positional arguments of a library function body, rational constants,
-`+ − × ÷`, unary minus and powers with natural exponents.
+model symbols, rational constants, `+ − × ÷`, unary minus and powers with natural
+exponents.  `BExpr` is the same fragment over the positional arguments of a library
+function (a function *body*).
 
-* `evalS ρ xs e`  — value of `e` when symbol `n` has value `ρ n` and positional argument
-  `i` has value `xs[i]`.
-* `substArgs es e` — `sympy_expr.subs(dict(zip(fn_args, model_args)))` in `fn_to_sympy`
+* `evalS ρ e`     — value of `e` when symbol `n` has value `ρ n`.
+* `evalB xs b`    — value of the body `b` at the positional arguments `xs` (the Python call).
+* `substArgs es b` — `sympy_expr.subs(dict(zip(fn_args, model_args)))` in `fn_to_sympy`
   (`meta/source_tools.py:319-320`): positional argument `i` of a function body is replaced
   by the model expression `es[i]`.
 * `substSym σ e`  — substitution of symbols.
@@ -25,9 +26,19 @@ Import-free apart from the shared core (so that the driver can link).
 import MxlVerif.Core.Basic
 namespace Mxl.C12
 
+inductive BExpr where
+  | arg (i : Nat)
+  | const (q : Rat)
+  | add (a b : BExpr)
+  | sub (a b : BExpr)
+  | mul (a b : BExpr)
+  | div (a b : BExpr)
+  | neg (a : BExpr)
+  | pow (a : BExpr) (n : Nat)
+deriving Repr, Inhabited
+
 inductive SExpr where
   | sym (n : Name)
-  | arg (i : Nat)
   | const (q : Rat)
   | add (a b : SExpr)
   | sub (a b : SExpr)
@@ -37,20 +48,28 @@ inductive SExpr where
   | pow (a : SExpr) (n : Nat)
 deriving Repr, Inhabited
 
-def evalS (ρ : Name → Rat) (xs : List Rat) : SExpr → Rat
-  | .sym n => ρ n
+def evalB (xs : List Rat) : BExpr → Rat
   | .arg i => xs.getD i 0
   | .const q => q
-  | .add a b => evalS ρ xs a + evalS ρ xs b
-  | .sub a b => evalS ρ xs a - evalS ρ xs b
-  | .mul a b => evalS ρ xs a * evalS ρ xs b
-  | .div a b => evalS ρ xs a / evalS ρ xs b
-  | .neg a => - evalS ρ xs a
-  | .pow a n => evalS ρ xs a ^ n
+  | .add a b => evalB xs a + evalB xs b
+  | .sub a b => evalB xs a - evalB xs b
+  | .mul a b => evalB xs a * evalB xs b
+  | .div a b => evalB xs a / evalB xs b
+  | .neg a => - evalB xs a
+  | .pow a n => evalB xs a ^ n
+
+def evalS (ρ : Name → Rat) : SExpr → Rat
+  | .sym n => ρ n
+  | .const q => q
+  | .add a b => evalS ρ a + evalS ρ b
+  | .sub a b => evalS ρ a - evalS ρ b
+  | .mul a b => evalS ρ a * evalS ρ b
+  | .div a b => evalS ρ a / evalS ρ b
+  | .neg a => - evalS ρ a
+  | .pow a n => evalS ρ a ^ n
 
 /-- positional substitution (`fn_to_sympy(..., model_args=es)`) -/
-def substArgs (es : List SExpr) : SExpr → SExpr
-  | .sym n => .sym n
+def substArgs (es : List SExpr) : BExpr → SExpr
   | .arg i => es.getD i (.const 0)
   | .const q => .const q
   | .add a b => .add (substArgs es a) (substArgs es b)
@@ -63,7 +82,6 @@ def substArgs (es : List SExpr) : SExpr → SExpr
 /-- substitution of symbols -/
 def substSym (σ : Name → SExpr) : SExpr → SExpr
   | .sym n => σ n
-  | .arg i => .arg i
   | .const q => .const q
   | .add a b => .add (substSym σ a) (substSym σ b)
   | .sub a b => .sub (substSym σ a) (substSym σ b)
@@ -75,7 +93,6 @@ def substSym (σ : Name → SExpr) : SExpr → SExpr
 /-- formal derivative with respect to the symbol `x` -/
 def D (x : Name) : SExpr → SExpr
   | .sym n => if n == x then .const 1 else .const 0
-  | .arg _ => .const 0
   | .const _ => .const 0
   | .add a b => .add (D x a) (D x b)
   | .sub a b => .sub (D x a) (D x b)
@@ -85,46 +102,37 @@ def D (x : Name) : SExpr → SExpr
   | .pow _ 0 => .const 0
   | .pow a (n + 1) => .mul (.mul (.const ((n + 1 : Nat) : Rat)) (.pow a n)) (D x a)
 
-/-- no positional argument is left (a closed model expression) -/
-def SExpr.closed : SExpr → Bool
-  | .sym _ => true
-  | .arg _ => false
-  | .const _ => true
-  | .add a b | .sub a b | .mul a b | .div a b => a.closed && b.closed
-  | .neg a => a.closed
-  | .pow a _ => a.closed
-
 /-- the symbols an expression mentions -/
 def freeSyms : SExpr → List Name
   | .sym n => [n]
-  | .arg _ | .const _ => []
+  | .const _ => []
   | .add a b | .sub a b | .mul a b | .div a b => freeSyms a ++ freeSyms b
   | .neg a => freeSyms a
   | .pow a _ => freeSyms a
 
 /-- the polynomial fragment: no division -/
 def SExpr.poly : SExpr → Bool
-  | .sym _ | .arg _ | .const _ => true
+  | .sym _ | .const _ => true
   | .add a b | .sub a b | .mul a b => a.poly && b.poly
   | .div _ _ => false
   | .neg a => a.poly
   | .pow a _ => a.poly
 
-/-- every denominator is non-zero at `(ρ, xs)` -/
-def DenOK (ρ : Name → Rat) (xs : List Rat) : SExpr → Prop
-  | .sym _ | .arg _ | .const _ => True
-  | .add a b | .sub a b | .mul a b => DenOK ρ xs a ∧ DenOK ρ xs b
-  | .div a b => DenOK ρ xs a ∧ DenOK ρ xs b ∧ evalS ρ xs b ≠ 0
-  | .neg a => DenOK ρ xs a
-  | .pow a _ => DenOK ρ xs a
+/-- every denominator is non-zero at `ρ` -/
+def DenOK (ρ : Name → Rat) : SExpr → Prop
+  | .sym _ | .const _ => True
+  | .add a b | .sub a b | .mul a b => DenOK ρ a ∧ DenOK ρ b
+  | .div a b => DenOK ρ a ∧ DenOK ρ b ∧ evalS ρ b ≠ 0
+  | .neg a => DenOK ρ a
+  | .pow a _ => DenOK ρ a
 
 /-- executable form of `DenOK` for the driver -/
-def denOKb (ρ : Name → Rat) (xs : List Rat) : SExpr → Bool
-  | .sym _ | .arg _ | .const _ => true
-  | .add a b | .sub a b | .mul a b => denOKb ρ xs a && denOKb ρ xs b
-  | .div a b => denOKb ρ xs a && denOKb ρ xs b && (evalS ρ xs b != 0)
-  | .neg a => denOKb ρ xs a
-  | .pow a _ => denOKb ρ xs a
+def denOKb (ρ : Name → Rat) : SExpr → Bool
+  | .sym _ | .const _ => true
+  | .add a b | .sub a b | .mul a b => denOKb ρ a && denOKb ρ b
+  | .div a b => denOKb ρ a && denOKb ρ b && (evalS ρ b != 0)
+  | .neg a => denOKb ρ a
+  | .pow a _ => denOKb ρ a
 
 /-- `ρ[x ↦ v]` -/
 def upd (ρ : Name → Rat) (x : Name) (v : Rat) : Name → Rat :=
@@ -147,24 +155,23 @@ def remPow (a0 a1 ra h : Rat) : Nat → Rat
     for which  `e(x+h) = e(x) + h·(D x e)(x) + h²·rem(h)`.  It is built from `+ − × ÷` of
     `h`, of values at the base point and of values at the displaced point, so it is a
     rational function of `h` whose denominators are denominators of `e` at the two points. -/
-def remV (ρ : Name → Rat) (xs : List Rat) (x : Name) (h : Rat) : SExpr → Rat
+def remV (ρ : Name → Rat) (x : Name) (h : Rat) : SExpr → Rat
   | .sym _ => 0
-  | .arg _ => 0
   | .const _ => 0
-  | .add a b => remV ρ xs x h a + remV ρ xs x h b
-  | .sub a b => remV ρ xs x h a - remV ρ xs x h b
+  | .add a b => remV ρ x h a + remV ρ x h b
+  | .sub a b => remV ρ x h a - remV ρ x h b
   | .mul a b =>
-      let a0 := evalS ρ xs a; let b0 := evalS ρ xs b
-      let a1 := evalS ρ xs (D x a); let b1 := evalS ρ xs (D x b)
-      let ra := remV ρ xs x h a; let rb := remV ρ xs x h b
+      let a0 := evalS ρ a; let b0 := evalS ρ b
+      let a1 := evalS ρ (D x a); let b1 := evalS ρ (D x b)
+      let ra := remV ρ x h a; let rb := remV ρ x h b
       a0 * rb + ra * b0 + a1 * b1 + h * (a1 * rb + ra * b1) + h * h * (ra * rb)
   | .div a b =>
-      let a0 := evalS ρ xs a; let b0 := evalS ρ xs b
-      let a1 := evalS ρ xs (D x a); let b1 := evalS ρ xs (D x b)
-      let ra := remV ρ xs x h a; let rb := remV ρ xs x h b
-      let bh := evalS (upd ρ x (ρ x + h)) xs b
+      let a0 := evalS ρ a; let b0 := evalS ρ b
+      let a1 := evalS ρ (D x a); let b1 := evalS ρ (D x b)
+      let ra := remV ρ x h a; let rb := remV ρ x h b
+      let bh := evalS (upd ρ x (ρ x + h)) b
       (ra * b0 * b0 - a0 * b0 * rb - (a1 * b0 - a0 * b1) * (b1 + h * rb)) / (b0 * b0 * bh)
-  | .neg a => - remV ρ xs x h a
-  | .pow a n => remPow (evalS ρ xs a) (evalS ρ xs (D x a)) (remV ρ xs x h a) h n
+  | .neg a => - remV ρ x h a
+  | .pow a n => remPow (evalS ρ a) (evalS ρ (D x a)) (remV ρ x h a) h n
 
 end Mxl.C12
